@@ -216,6 +216,8 @@ class Fn:
             return f"(if {c} then {a} else {b})", ta
         if isinstance(e, ast.Call):
             fn = self.chain(e.func)
+            if fn == "cast" and len(e.args) == 2 and not e.keywords:
+                return self.expr(e.args[1], env)  # typing.cast is the identity
             if fn == "int" and len(e.args) == 1 and not e.keywords:
                 a, ta = self.expr(e.args[0], env)
                 if ta == "Z":
@@ -505,6 +507,7 @@ def main(repo: Path, out: Path):
     main_loops(repo, out)
     main_arrays(repo, out)
     main_slot(repo, out)
+    main_state(repo, out)
 
 
 class TruthyFn(Fn):
@@ -1121,6 +1124,340 @@ def main_slot(repo: Path, out: Path):
         "    The scheduled slot is returned as (ti, tf, phase of the scheduled pulse). *)\n"
         "From Coq Require Import ZArith Bool List.\nFrom Coq Require Import PrimFloat.\n"
         "From PV Require Import Model.Base Model.Sched Gen.Pure Gen.PureLoops.\nOpen Scope Z_scope.\n\n" + "\n".join(defs)
+    )
+
+
+class StateFn(SlotFn):
+    """the state-changing methods of _Schedule, translated into the state-and-exception monad of
+    Model/Sched.v (`SM`): every read of `self[ch]` / `self[ch][-1]` is a read of the CURRENT state
+    (bound afresh for each statement), `slots.append(_TimeSlot(..))` is `append_slot`, a call that
+    may raise is bound with `lift`, a call of another scheduler method is sequenced.  Pulses the
+    scheduler builds itself (`Pulse.ConstantPulse(d, 0.0, det_off, phase)`) are the model's
+    `mk_dd_pulse`, whose fall times are keyed by the instant at which the pulse starts."""
+
+    def __init__(self, *a):
+        super().__init__(*a)
+        self.pre = []
+        self.memo = {}
+
+    # -- reads of the current state
+    def expr(self, e, env):
+        k = id(e)
+        if k in self.memo:
+            return self.memo[k]
+        r = self.expr_(e, env)
+        self.memo[k] = r
+        return r
+
+    def expr_(self, e, env):
+        txt = ast.unparse(e)
+        if txt in env:
+            return env[txt]
+        if isinstance(e, ast.Subscript) and isinstance(e.value, ast.Name) and e.value.id == "self" and isinstance(e.slice, ast.Name):
+            n, tn = self.expr(e.slice, env)
+            if tn != "Z":
+                raise Unsupported("self[x] with x not a channel name")
+            c = self.var("c")
+            self.pre.append(f"{c} <- the_chan {n} ;;")
+            return c, "chan"
+        if (isinstance(e, ast.Subscript) and ast.unparse(e.slice) == "-1" and isinstance(e.value, ast.Subscript)
+                and isinstance(e.value.value, ast.Name) and e.value.value.id == "self" and isinstance(e.value.slice, ast.Name)):
+            n, tn = self.expr(e.value.slice, env)
+            sl = self.var("sl")
+            self.pre.append(f"{sl} <- last_slot {n} ;;")
+            return sl, "slot"
+        if isinstance(e, ast.Attribute) and e.attr == "targets":
+            o, to = self.expr(e.value, env)
+            if to == "slot":
+                return f"(s_tg {o})", "listZ"
+        if isinstance(e, ast.Attribute) and e.attr == "slots":
+            o, to = self.expr(e.value, env)
+            if to == "chan":
+                return f"(ch_slots {o})", "listslot"
+        if isinstance(e, ast.Call):
+            f = e.func
+            # self[ch].channel_obj.validate_duration(x) / self[ch].adjust_duration(x): may raise -> bound
+            if isinstance(f, ast.Attribute) and f.attr in ("validate_duration", "adjust_duration") and len(e.args) == 1 and not e.keywords:
+                o, to = self.expr(f.value, env)
+                if (f.attr, to) not in (("validate_duration", "chanobj"), ("adjust_duration", "chan")):
+                    raise Unsupported(f"{f.attr} of a {to}")
+                a, ta = self.expr(e.args[0], env)
+                g = "gen_validate_duration" if f.attr == "validate_duration" else "gen_adjust_duration"
+                v = self.var("v")
+                self.pre.append(f"{v} <- lift ({g} (c_min (ch_cfg {o})) (c_max (ch_cfg {o})) (c_clock (ch_cfg {o})) {a}) ;;")
+                return v, "Z"
+            if isinstance(f, ast.Attribute) and f.attr == "get_duration" and not e.args:
+                o, to = self.expr(f.value, env)
+                if to != "chan":
+                    raise Unsupported("get_duration of a non-channel")
+                kws = {k.arg: k.value for k in e.keywords}
+                fall = self.truth(kws["include_fall_time"], env) if "include_fall_time" in kws else "false"
+                return f"(gen_get_duration (ch_slots {o}) (c_rise (ch_cfg {o})) (in_eom {o}) {fall})", "Z"
+            if ast.unparse(f) == "self.get_duration" and len(e.args) == 1 and not e.keywords:
+                # _Schedule.get_duration(channel): that channel's own duration, without fall time
+                n, _ = self.expr(e.args[0], env)
+                c = self.var("c")
+                self.pre.append(f"{c} <- the_chan {n} ;;")
+                return f"(gen_get_duration (ch_slots {c}) (c_rise (ch_cfg {c})) (in_eom {c}) false)", "Z"
+            if isinstance(f, ast.Attribute) and f.attr == "last_target" and not e.args and not e.keywords:
+                o, to = self.expr(f.value, env)
+                if to != "chan":
+                    raise Unsupported("last_target of a non-channel")
+                return f"(gen_last_target (ch_slots {o}))", "Z"
+            if ast.unparse(f) == "self._get_last_pulse_phase" and len(e.args) == 1:
+                n, _ = self.expr(e.args[0], env)
+                c = self.var("c")
+                self.pre.append(f"{c} <- the_chan {n} ;;")
+                return f"(last_pulse_phase {c})", "float"
+            if ast.unparse(f) == "Pulse.ConstantPulse" and len(e.args) == 4 and ast.unparse(e.args[1]) == "0.0":
+                d, td = self.expr(e.args[0], env)
+                doff, t2 = self.expr(e.args[2], env)
+                ph, t3 = self.expr(e.args[3], env)
+                if (td, t2, t3) != ("Z", "float", "float"):
+                    raise Unsupported("ConstantPulse with unexpected argument types")
+                return (d, doff, ph), "ddpulse"
+            if ast.unparse(f) == "np.clip" and len(e.args) == 3:
+                a = [self.expr(x, env) for x in e.args]
+                if any(t != "Z" for _, t in a):
+                    raise Unsupported("np.clip on non-integers")
+                return f"(Zclip {a[0][0]} {a[1][0]} {a[2][0]})", "Z"
+            if ast.unparse(f) == "set" and len(e.args) == 1:
+                return self.expr(e.args[0], env)
+        if isinstance(e, ast.Attribute) and e.attr == "detuning_off" and ast.unparse(e.value).endswith(".eom_blocks[-1]"):
+            o, to = self.expr(e.value.value.value, env)
+            if to != "chan":
+                raise Unsupported("eom_blocks of a non-channel")
+            b = self.var("b")
+            return (f"(match ch_eoms {o} with cons {b} _ => eb_doff {b} | nil => zero end)"), "float"
+        if isinstance(e, ast.Compare) and len(e.ops) == 1 and isinstance(e.ops[0], ast.Eq):
+            a, ta = self.expr(e.left, env)
+            if ta == "listZ":
+                b, tb = self.expr(e.comparators[0], env)
+                if tb == "listZ":
+                    return f"(list_Z_eqb {a} {b})", "bool"
+        return super().expr(e, env)
+
+    def attribute(self, e, env):
+        o, to = self.expr(e.value, env)
+        tab = {("chanobj", "min_retarget_interval"): f"(c_minret (ch_cfg {o}))", ("chanobj", "fixed_retarget_t"): f"(c_fixret (ch_cfg {o}))",
+               ("slot", "ti"): f"(s_ti {o})"}
+        if (to, e.attr) in tab:
+            return tab[(to, e.attr)], "Z"
+        if (to, e.attr) == ("chanobj", "_eom_buffer_time"):
+            return f"(eom_buffer_time (ch_cfg {o}))", "Z"
+        if (to, e.attr) == ("chanobj", "eom_config"):
+            return f"(c_eom (ch_cfg {o}))", "opteom"
+        if (to, e.attr) == ("eom", "custom_buffer_time"):
+            # the model keeps bool(custom_buffer_time); only its truth value is used here
+            return f"(e_custom {o})", "bool"
+        return super().attribute(e, env)
+
+    def truth(self, e, env):
+        if isinstance(e, ast.BoolOp) and isinstance(e.op, ast.And) and len(e.values) == 2:
+            a, ta = self.expr(e.values[0], env)
+            if ta == "opteom":  # `cfg and cfg.x`: a dataclass instance is truthy
+                x = self.var("ec")
+                env2 = dict(env)
+                env2[ast.unparse(e.values[0])] = (x, "eom")
+                self.memo = {}
+                b = self.truth(e.values[1], env2)
+                return f"(match {a} with Some {x} => {b} | None => false end)"
+        a, ta = self.expr(e, env)
+        if ta == "listslot":
+            return f"(match {a} with nil => false | cons _ _ => true end)"
+        if ta == "bool":
+            return a
+        return super().truth(e, env)
+
+    def with_pre(self, code):
+        pre, self.pre = self.pre, []
+        return "\n  ".join(pre + [code])
+
+    def slot_term(self, call, env):
+        a = call.args
+        if len(a) != 4:
+            raise Unsupported("_TimeSlot with other than 4 arguments")
+        ti, t1 = self.expr(a[1], env)
+        tf, t2 = self.expr(a[2], env)
+        tg, t3 = self.expr(a[3], env)
+        if (t1, t2, t3) != ("Z", "Z", "listZ"):
+            raise Unsupported("_TimeSlot with unexpected argument types")
+        if isinstance(a[0], ast.Constant) and a[0].value in ("delay", "target"):
+            k = "KDelay" if a[0].value == "delay" else "KTarget"
+        else:
+            v, tv = self.expr(a[0], env)
+            if tv != "ddpulse":
+                raise Unsupported("_TimeSlot of something other than 'delay', 'target' or a pulse built here")
+            d, doff, ph = v
+            k = f"KPulse (mk_dd_pulse e {env.get('channel', env.get('channel_id'))[0]} {ti} {d} {ph} {doff})"
+        return f"{{| s_kind := {k}; s_ti := {ti}; s_tf := {tf}; s_tg := {tg} |}}"
+
+    def sblock(self, stmts, env, rest=None):
+        if not stmts:
+            return rest(env) if rest is not None else "ret tt"
+        s, tail = stmts[0], stmts[1:]
+        nxt = lambda env2: self.sblock(tail, env2, rest)  # noqa: E731
+        self.pre = []
+        self.memo = {}
+        if isinstance(s, ast.Expr) and isinstance(s.value, ast.Constant) and isinstance(s.value.value, str):
+            return nxt(env)
+        if isinstance(s, ast.Return) and s.value is None:
+            return "ret tt"
+        if (isinstance(s, ast.Assign) and len(s.targets) == 1 and isinstance(s.targets[0], ast.Name)
+                and not (isinstance(s.value, ast.Call) and ast.unparse(s.value.func) == "_EOMSettings")):
+            x = s.targets[0].id
+            if isinstance(s.value, ast.Call) and ast.unparse(s.value.func) == "self.make_next_pulse_slot":
+                args = [ast.unparse(a) for a in s.value.args]
+                if args != ["pulse", "channel", "phase_barrier_ts", "protocol", "phase_drift_params", "True"]:
+                    raise Unsupported("make_next_pulse_slot called with other arguments")
+                env2 = dict(env)
+                env2[x] = (x, "slot")
+                return f"{x} <- make_next_pulse_slot e pulse channel phase_barrier_ts protocol phase_drift_params true ;;\n  {nxt(env2)}"
+            a, ta = self.expr(s.value, env)
+            env2 = dict(env)
+            if ta in ("ddpulse",):
+                env2[x] = (a, ta)
+                pre, self.pre = self.pre, []
+                return "\n  ".join(pre + [nxt(env2)])
+            if ta in ("slot", "chan", "chanobj") and a.isidentifier():
+                env2[x] = (a, ta)
+                pre, self.pre = self.pre, []
+                return "\n  ".join(pre + [nxt(env2)])
+            env2[x] = (x, ta)
+            code = self.with_pre(f"let {x} := {a} in")
+            return code + "\n  " + nxt(env2)
+        if isinstance(s, ast.Expr) and isinstance(s.value, ast.Call):
+            c = s.value
+            f = ast.unparse(c.func)
+            if f == "self._check_duration":
+                t, _ = self.expr(c.args[0], env)
+                blk = self.truth(c.args[1], env) if len(c.args) > 1 else "true"  # default block_over_max_duration=True
+                return self.with_pre(f"lift (gen_check_duration (en_max e) {t} {blk}) ;;;") + "\n  " + nxt(env)
+            if f in ("self.add_delay", "self.wait_for_fall") and not c.keywords:
+                args = [self.expr(a, env)[0] for a in c.args]
+                name = {"self.add_delay": "gen_add_delay", "self.wait_for_fall": "gen_wait_for_fall"}[f]
+                return self.with_pre(f"{name} e {' '.join(args)} ;;;") + "\n  " + nxt(env)
+            if f.endswith(".slots.append") and len(c.args) == 1:
+                o, to = self.expr(c.func.value.value, env)
+                if to != "chan":
+                    raise Unsupported("append to the slots of a non-channel")
+                arg = c.args[0]
+                if isinstance(arg, ast.Call) and ast.unparse(arg.func) == "_TimeSlot":
+                    term = self.slot_term(arg, env)
+                else:
+                    term, tt_ = self.expr(arg, env)
+                    if tt_ != "slot":
+                        raise Unsupported("append of a non-slot")
+                # the channel whose slots are appended to is named by the subscript
+                nm, _ = self.expr(c.func.value.value.slice, env)
+                self.pre = [p_ for p_ in self.pre if not p_.startswith(o + " <-")]
+                return self.with_pre(f"append_slot {nm} {term} ;;;") + "\n  " + nxt(env)
+        # self[ch].eom_blocks[-1].tf = E   : the open EOM block is closed at E
+        if (isinstance(s, ast.Assign) and len(s.targets) == 1 and isinstance(s.targets[0], ast.Attribute) and s.targets[0].attr == "tf"
+                and ast.unparse(s.targets[0].value).endswith(".eom_blocks[-1]")):
+            nm, _ = self.expr(s.targets[0].value.value.value.slice, env)
+            v, tv = self.expr(s.value, env)
+            if tv != "Z":
+                raise Unsupported("EOM block closed at a non-integer")
+            c = self.var("c")
+            return self.with_pre(f"(fun s_ => (upd_chan {nm} (fun {c} => close_eom {c} {v}) s_, Ok tt)) ;;;") + "\n  " + nxt(env)
+        # eom_settings = _EOMSettings(...)
+        if (isinstance(s, ast.Assign) and len(s.targets) == 1 and isinstance(s.targets[0], ast.Name) and isinstance(s.value, ast.Call)
+                and ast.unparse(s.value.func) == "_EOMSettings"):
+            kws = {k.arg: k.value for k in s.value.keywords}
+            if s.value.args or set(kws) != {"rabi_freq", "detuning_on", "detuning_off", "ti", "switching_beams"}:
+                raise Unsupported("_EOMSettings with other fields")
+            vals = {k: self.expr(kws[k], env) for k in ("rabi_freq", "detuning_on", "detuning_off", "ti")}
+            if [vals[k][1] for k in ("rabi_freq", "detuning_on", "detuning_off", "ti")] != ["float", "float", "float", "Z"]:
+                raise Unsupported("_EOMSettings with unexpected field types")
+            term = ("{| eb_rabi := %s; eb_don := %s; eb_doff := %s; eb_ti := %s; eb_tf := None |}"
+                    % tuple(vals[k][0] for k in ("rabi_freq", "detuning_on", "detuning_off", "ti")))
+            env2 = dict(env)
+            env2[s.targets[0].id] = (term, "eomblk")
+            pre, self.pre = self.pre, []
+            return "\n  ".join(pre + [nxt(env2)])
+        if isinstance(s, ast.Expr) and isinstance(s.value, ast.Call):
+            c_ = s.value
+            f_ = ast.unparse(c_.func)
+            if f_.endswith(".eom_blocks.append") and len(c_.args) == 1:
+                nm, _ = self.expr(c_.func.value.value.slice, env)
+                v, tv = self.expr(c_.args[0], env)
+                if tv != "eomblk":
+                    raise Unsupported("append of something other than EOM settings built here")
+                c = self.var("c")
+                return self.with_pre(f"(fun s_ => (upd_chan {nm} (fun {c} => set_eoms {c} ({v} :: ch_eoms {c})) s_, Ok tt)) ;;;") + "\n  " + nxt(env)
+            if f_ == "self.add_pulse":
+                kws = {k.arg: ast.unparse(k.value) for k in c_.keywords}
+                if len(c_.args) != 2 or kws != {"phase_barrier_ts": "[0]", "protocol": "'no-delay'"}:
+                    raise Unsupported("add_pulse called with other than (pulse, channel, phase_barrier_ts=[0], protocol='no-delay')")
+                v, tv = self.expr(c_.args[0], env)
+                nm, _ = self.expr(c_.args[1], env)
+                if tv != "ddpulse":
+                    raise Unsupported("add_pulse of a pulse not built here")
+                d, doff, ph = v
+                sl = self.var("sl")
+                # with 'no-delay' and the barrier 0 the pulse starts where the channel ends now
+                self.pre.append(f"{sl} <- last_slot {nm} ;;")
+                return self.with_pre(f"gen_add_pulse e (mk_dd_pulse e {nm} (s_tf {sl}) {d} {ph} {doff}) {nm} [0] 1 None ;;;") + "\n  " + nxt(env)
+        if isinstance(s, ast.If):
+            c = self.truth(s.test, env)
+            pre, self.pre = self.pre, []
+            a = self.sblock(s.body, env, nxt)
+            b = self.sblock(s.orelse, env, nxt)
+            return "\n  ".join(pre + [f"if {c}\n  then ({a})\n  else ({b})"])
+        raise Unsupported(f"statement {type(s).__name__}: {ast.unparse(s)[:60]}")
+
+    def definition(self):
+        sp = self.spec
+        env = {}
+        for py, (cq, ty) in sp["params"].items():
+            env[py] = (cq, ty)
+        tyc = dict(COQTY, optdrift="option drift", env="env", pulse="pulse")
+        ps = " ".join(f"({c} : {tyc[t]})" for c, t in sp["sig"])
+        self.fresh = 0
+        body = self.sblock(self.node.body, env)
+        return f"(** {sp['file']} : {sp['qual']} *)\nDefinition {sp['coq']} {ps} : SM unit :=\n  {body}.\n"
+
+
+STATE_SPECS = [
+    dict(file="pulser-core/pulser/sequence/_schedule.py", qual="_Schedule.add_delay", coq="gen_add_delay",
+         sig=[("e", "env"), ("duration", "Z"), ("channel", "Z")], params={"duration": ("duration", "Z"), "channel": ("channel", "Z")}),
+    dict(file="pulser-core/pulser/sequence/_schedule.py", qual="_Schedule.wait_for_fall", coq="gen_wait_for_fall",
+         sig=[("e", "env"), ("channel", "Z")], params={"channel": ("channel", "Z")}),
+    dict(file="pulser-core/pulser/sequence/_schedule.py", qual="_Schedule.add_pulse", coq="gen_add_pulse",
+         sig=[("e", "env"), ("pulse", "pulse"), ("channel", "Z"), ("phase_barrier_ts", "listZ"), ("protocol", "Z"), ("phase_drift_params", "optdrift")],
+         params={"channel": ("channel", "Z")}),
+    dict(file="pulser-core/pulser/sequence/_schedule.py", qual="_Schedule.disable_eom", coq="gen_disable_eom",
+         sig=[("e", "env"), ("channel_id", "Z"), ("_skip_buffer", "bool")],
+         params={"channel_id": ("channel_id", "Z"), "_skip_buffer": ("_skip_buffer", "bool")}),
+    dict(file="pulser-core/pulser/sequence/_schedule.py", qual="_Schedule.enable_eom", coq="gen_enable_eom",
+         sig=[("e", "env"), ("channel_id", "Z"), ("amp_on", "float"), ("detuning_on", "float"), ("detuning_off", "float"), ("_skip_wait_for_fall", "bool")],
+         # no caller passes _skip_buffer to enable_eom: it is the constant False here
+         params={"channel_id": ("channel_id", "Z"), "amp_on": ("amp_on", "float"), "detuning_on": ("detuning_on", "float"),
+                 "detuning_off": ("detuning_off", "float"), "_skip_wait_for_fall": ("_skip_wait_for_fall", "bool"),
+                 "_skip_buffer": ("false", "bool"), "switching_beams": ("tt", "unit")}),
+    dict(file="pulser-core/pulser/sequence/_schedule.py", qual="_Schedule.add_target", coq="gen_add_target",
+         sig=[("e", "env"), ("qubits_set", "listZ"), ("channel", "Z")], params={"channel": ("channel", "Z"), "qubits_set": ("qubits_set", "listZ")}),
+]
+
+
+def main_state(repo: Path, out: Path):
+    trees = {}
+    defs = []
+    for sp in STATE_SPECS:
+        p = repo / sp["file"]
+        tree = trees.setdefault(str(p), ast.parse(p.read_text()))
+        node = find(tree, sp["qual"])
+        fn = StateFn(sp, node, {}, {})
+        try:
+            defs.append(fn.definition())
+        except Unsupported as e:
+            raise ValueError(f"translator cannot express {sp['qual']} ({sp['file']}): {e}") from e
+    (out / "PureState.v").write_text(
+        "(** GENERATED by translate/tr_pure.py from the state-changing methods of _Schedule - do not edit.\n"
+        "    They live in the state-and-exception monad SM of Model/Sched.v. *)\n"
+        "From Coq Require Import ZArith Bool List.\nFrom Coq Require Import PrimFloat.\n"
+        "From PV Require Import Model.Base Model.Sched Gen.Pure Gen.PureLoops.\nImport ListNotations.\nOpen Scope Z_scope.\nOpen Scope monad_scope.\n\n" + "\n".join(defs)
     )
 
 
